@@ -191,7 +191,7 @@ class Iso0PinBlock(AbstractPinBlock):
         p2 = f'0000{rightmost_12}'
         p1_bytes = int.from_bytes(pin_block, byteorder='big') ^ int(p2, 16)
         p1 = f'{p1_bytes:016x}'
-        pin_length = int(p1[1:2])
+        pin_length = int(p1[1:2], 16)
         pin = p1[2:2 + pin_length]
         return cls(pin, card_number=card_number)
 
@@ -202,7 +202,7 @@ class Iso0PinBlock(AbstractPinBlock):
         :return: pin block as bytes
         """
         rightmost_12 = self.card_number[-13:-1]
-        p1 = f'{"0" + str(len(self.pin)) + self.pin:f<16}'
+        p1 = f'{"0" + format(len(self.pin), "x") + self.pin:f<16}'
         p2 = f'0000{rightmost_12}'
         pin_block = int(p1, 16) ^ int(p2, 16)
         return pin_block.to_bytes(8, byteorder='big')
@@ -239,13 +239,13 @@ class Iso4PinBlock(AbstractPinBlock):
             LOGGER.debug(f'random_value={self.random_value}')
 
     def to_bytes(self) -> bytes:
-        p1 = binascii.unhexlify(f'{"4" + str(len(self.pin)) + self.pin:a<16}{self.random_value:016x}')
+        p1 = binascii.unhexlify(f'{"4" + format(len(self.pin), "x") + self.pin:a<16}{self.random_value:016x}')
         return p1
 
     @classmethod
     def from_bytes(cls, pin_block: bytes, *args: any, **kwargs: any) -> AbstractPinBlock:
         p1 = binascii.hexlify(pin_block)
-        pin_length = int(p1[1:2])
+        pin_length = int(p1[1:2], 16)
         pin = p1[2:2+pin_length]
         return cls(pin.decode())
 
